@@ -1,3 +1,4 @@
+import SockModel.Props.C18Hs
 import SockModel.Model.TlsLemmas
 import SockModel.Model.HsLemmas
 import SockModel.Model.TlsBudget
@@ -1695,3 +1696,213 @@ example : Spec.VClock TW.world := Spec.TW.vclock
 example : Spec.EngOk Spec.demoEngine false := Spec.demoEngine_ok
 
 end SockModel.Tls
+/-! ## handshake completion beyond the polling schedule
+
+Re-exports of `Props/C18Hs.lean` (statements, hypotheses and examples are documented there): the handshake of the
+two-endpoint composition completes under **every** schedule of calls - any order of the two sides' calls, any mix of
+`Send` and `Receive`, any receive sizes - as long as no side is starved. -/
+namespace SockModel.Hs
+open SockModel.Net SockModel.Tls
+
+theorem call_progress (C : Cfg) (hC : 1 < C.stepsMax) (P : HsP) (dc ds : Bytes) (hdc : dc ≠ []) (hds : ds ≠ [])
+    (y : Sys) (hinv : SysInv P dc ds y) (a : Act) (ha : a.ok) :
+    SysInv P dc ds (y.act C P dc ds a) ∧ (y.act C P dc ds a).faults = 0 ∧
+    mu P (y.act C P dc ds a) ≤ mu P y ∧
+    (y.canProg a.client → mu P (y.act C P dc ds a) < mu P y) ∧
+    y.ec.stage ≤ (y.act C P dc ds a).ec.stage ∧ y.es.stage ≤ (y.act C P dc ds a).es.stage ∧
+    (y.canProg (!a.client) → (y.act C P dc ds a).canProg (!a.client)) :=
+  C18Hs.call_progress C hC P dc ds hdc hds y hinv a ha
+
+theorem some_side_can_progress (P : HsP) (dc ds : Bytes) (y : Sys) (hinv : SysInv P dc ds y)
+    (hnf : ¬ y.bothFinished) : y.canProg true ∨ y.canProg false :=
+  C18Hs.some_side_can_progress P dc ds y hinv hnf
+
+theorem schedule_progress (C : Cfg) (hC : 1 < C.stepsMax) (P : HsP) (dc ds : Bytes) (hdc : dc ≠ []) (hds : ds ≠ [])
+    (l : List Act) (hok : ∀ a ∈ l, a.ok) (y : Sys) (hinv : SysInv P dc ds y) :
+    SysInv P dc ds (Sys.run C P dc ds l y) ∧ (Sys.run C P dc ds l y).faults = 0 ∧
+    mu P (Sys.run C P dc ds l y) + progCalls C P dc ds l y ≤ mu P y ∧
+    y.ec.stage ≤ (Sys.run C P dc ds l y).ec.stage ∧ y.es.stage ≤ (Sys.run C P dc ds l y).es.stage :=
+  C18Hs.schedule_progress C hC P dc ds hdc hds l hok y hinv
+
+theorem handshake_completes_counting (C : Cfg) (hC : 1 < C.stepsMax) (P : HsP) (dc ds : Bytes) (hdc : dc ≠ [])
+    (hds : ds ≠ []) (segs : List Nat) (l : List Act) (hok : ∀ a ∈ l, a.ok)
+    (hcount : P.total ≤ progCalls C P dc ds l (Sys.init P segs)) :
+    (Sys.run C P dc ds l (Sys.init P segs)).bothFinished ∧ (Sys.run C P dc ds l (Sys.init P segs)).faults = 0 :=
+  C18Hs.handshake_completes_counting C hC P dc ds hdc hds segs l hok hcount
+
+theorem handshake_completes_prog_fair (C : Cfg) (hC : 1 < C.stepsMax) (P : HsP) (dc ds : Bytes) (hdc : dc ≠ [])
+    (hds : ds ≠ []) (segs : List Nat) (w : Nat) (l : List Act) (hok : ∀ a ∈ l, a.ok)
+    (hf : ProgFair C P dc ds w l (Sys.init P segs)) (j : Nat) (hj : j ≤ l.length) :
+    (Sys.run C P dc ds (l.take j) (Sys.init P segs)).faults = 0 ∧
+    (P.total * w ≤ j → (Sys.run C P dc ds (l.take j) (Sys.init P segs)).bothFinished) :=
+  C18Hs.handshake_completes_prog_fair C hC P dc ds hdc hds segs w l hok hf j hj
+
+theorem handshake_completes_any_schedule (C : Cfg) (hC : 1 < C.stepsMax) (P : HsP) (dc ds : Bytes) (hdc : dc ≠ [])
+    (hds : ds ≠ []) (segs : List Nat) (w : Nat) (l : List Act) (hok : ∀ a ∈ l, a.ok) (hf : SideFair w l)
+    (j : Nat) (hj : j ≤ l.length) :
+    (Sys.run C P dc ds (l.take j) (Sys.init P segs)).faults = 0 ∧
+    (P.total * w ≤ j → (Sys.run C P dc ds (l.take j) (Sys.init P segs)).bothFinished) ∧
+    (∀ i, i ≤ j →
+      (Sys.run C P dc ds (l.take i) (Sys.init P segs)).ec.stage ≤ (Sys.run C P dc ds (l.take j) (Sys.init P segs)).ec.stage ∧
+      (Sys.run C P dc ds (l.take i) (Sys.init P segs)).es.stage ≤ (Sys.run C P dc ds (l.take j) (Sys.init P segs)).es.stage) :=
+  C18Hs.handshake_completes_any_schedule C hC P dc ds hdc hds segs w l hok hf j hj
+
+theorem handshake_completes_any_infinite_schedule (C : Cfg) (hC : 1 < C.stepsMax) (P : HsP) (dc ds : Bytes)
+    (hdc : dc ≠ []) (hds : ds ≠ []) (segs : List Nat) (w : Nat) (σ : Nat → Act) (hok : ∀ i, (σ i).ok)
+    (hf : SideFairInf w σ) (k : Nat) :
+    (Sys.runTo C P dc ds σ k (Sys.init P segs)).faults = 0 ∧
+    (P.total * w ≤ k → (Sys.runTo C P dc ds σ k (Sys.init P segs)).bothFinished) :=
+  C18Hs.handshake_completes_any_infinite_schedule C hC P dc ds hdc hds segs w σ hok hf k
+
+theorem starved_server_never_completes (C : Cfg) (P : HsP) (dc ds : Bytes) (segs : List Nat) (l : List Act)
+    (hl : C18Hs.OnlySide true l) :
+    (Sys.run C P dc ds l (Sys.init P segs)).es = Hs.init P false ∧
+    ¬ (Sys.run C P dc ds l (Sys.init P segs)).bothFinished :=
+  C18Hs.starved_server_never_completes C P dc ds segs l hl
+
+theorem starved_client_never_completes (C : Cfg) (P : HsP) (dc ds : Bytes) (segs : List Nat) (l : List Act)
+    (hl : C18Hs.OnlySide false l) :
+    (Sys.run C P dc ds l (Sys.init P segs)).ec = Hs.init P true ∧
+    ¬ (Sys.run C P dc ds l (Sys.init P segs)).bothFinished :=
+  C18Hs.starved_client_never_completes C P dc ds segs l hl
+
+/-! ### limited timeouts `T ≥ 0` under virtual time (`chanWorldT`) -/
+
+theorem chanWorldT_clockOk (r : Bool) : ClockOk (chanWorldT r) := C18Hs.chanWorldT_clockOk r
+
+theorem timed_call_is_zero_call {σ : Type} (C : Cfg) (r : Bool) (E : Engine σ) (s : St σ ChanT) (T : Int) (hT : 0 ≤ T) :
+    (∀ n, receiveT C (chanWorld r) E (proj s) n 0 =
+        ((receiveT C (chanWorldT r) E s n T).1, proj (receiveT C (chanWorldT r) E s n T).2) ∧
+      0 ≤ (receiveT C (chanWorldT r) E s n T).2.g.remainingTime ∧
+      (receiveT C (chanWorldT r) E s n T).2.w.clock + (receiveT C (chanWorldT r) E s n T).2.g.remainingTime = s.w.clock + T) ∧
+    (∀ data, sendT C (chanWorld r) E (proj s) data 0 =
+        ((sendT C (chanWorldT r) E s data T).1, proj (sendT C (chanWorldT r) E s data T).2) ∧
+      0 ≤ (sendT C (chanWorldT r) E s data T).2.g.remainingTime ∧
+      (sendT C (chanWorldT r) E s data T).2.w.clock + (sendT C (chanWorldT r) E s data T).2.g.remainingTime = s.w.clock + T) :=
+  C18Hs.timed_call_is_zero_call C r E s T hT
+
+theorem timed_schedule_is_zero_schedule (C : Cfg) (P : HsP) (dc ds : Bytes) (l : List ActT)
+    (hT : ∀ a ∈ l, 0 ≤ a.timeout) (y : SysT) :
+    (SysT.run C P dc ds l y).untimed = Sys.run C P dc ds (l.map ActT.act) y.untimed ∧
+    (SysT.run C P dc ds l y).clock ≤ y.clock + budgetSum l :=
+  C18Hs.timed_schedule_is_zero_schedule C P dc ds l hT y
+
+theorem handshake_completes_any_timeouts (C : Cfg) (hC : 1 < C.stepsMax) (P : HsP) (dc ds : Bytes) (hdc : dc ≠ [])
+    (hds : ds ≠ []) (segs : List Nat) (w : Nat) (l : List ActT) (hok : ∀ a ∈ l, a.act.ok)
+    (hT : ∀ a ∈ l, 0 ≤ a.timeout) (hf : SideFair w (l.map ActT.act)) (j : Nat) (hj : j ≤ l.length) :
+    (SysT.run C P dc ds (l.take j) (SysT.init P segs)).faults = 0 ∧
+    (P.total * w ≤ j → (SysT.run C P dc ds (l.take j) (SysT.init P segs)).bothFinished) ∧
+    (SysT.run C P dc ds (l.take j) (SysT.init P segs)).clock ≤ budgetSum (l.take j) :=
+  C18Hs.handshake_completes_any_timeouts C hC P dc ds hdc hds segs w l hok hT hf j hj
+
+/-! ### an unlimited timeout on one side, the other side polls (`blockWorld`) -/
+
+theorem blocked_wait_is_released (C : Cfg) (hC : 1 < C.stepsMax) (P : HsP) (u : Bool) (dc ds : Bytes) (hdc : dc ≠ [])
+    (hds : ds ≠ []) (T : Int) (hT : T < 0) (g : Glue) (h : Hs) (w : PeerW)
+    (hinv : SysInv P dc ds (mkSys u g h w)) (hok : ProgOk w) (hs : h.stage < 3) (hr : h.writes = false)
+    (hen : Enough P w) :
+    ((blockWorld C P u dc ds).wait w .rd T).1 = true ∧ 0 < ((blockWorld C P u dc ds).wait w .rd T).2.ch.inb u ∧
+    SysInv P dc ds (mkSys u g h ((blockWorld C P u dc ds).wait w .rd T).2) ∧
+    ProgOk ((blockWorld C P u dc ds).wait w .rd T).2 ∧ Enough P ((blockWorld C P u dc ds).wait w .rd T).2 :=
+  C18Hs.blocked_wait_is_released C hC P u dc ds hdc hds T hT g h w hinv hok hs hr hen
+
+theorem unlimited_send_completes_handshake (C : Cfg) (hC : 1 < C.stepsMax) (P : HsP) (u : Bool) (dc ds : Bytes)
+    (hdc : dc ≠ []) (hds : ds ≠ []) (T : Int) (hT : T < 0) (s : St Hs PeerW) (hr : ReadyU (ownPay u dc ds) s)
+    (hinv : SysInv P dc ds (mkSys u s.g s.e s.w)) (hok : ProgOk s.w) (hen : s.e.stage < 3 → Enough P s.w) :
+    ∃ s', sendT C (blockWorld C P u dc ds) (engine P) s (ownPay u dc ds) T = (.ok (ownPay u dc ds).length, s') ∧
+      ReadyU (ownPay u dc ds) s' ∧ SysInv P dc ds (mkSys u s'.g s'.e s'.w) ∧ ProgOk s'.w ∧ 3 ≤ s'.e.stage ∧
+      work P s'.w.e ≤ work P s.w.e ∧ s.w.e.stage ≤ s'.w.e.stage :=
+  C18Hs.unlimited_send_completes_handshake C hC P u dc ds hdc hds T hT s hr hinv hok hen
+
+theorem unlimited_receive_completes_handshake (C : Cfg) (hC : 1 < C.stepsMax) (P : HsP) (u : Bool) (dc ds : Bytes)
+    (hdc : dc ≠ []) (hds : ds ≠ []) (T : Int) (hT : T < 0) (n : Nat) (hn : 1 ≤ n) (s : St Hs PeerW)
+    (hr : ReadyU (ownPay u dc ds) s) (hinv : SysInv P dc ds (mkSys u s.g s.e s.w)) (hok : ProgOk s.w)
+    (hen : s.e.stage < 3 → Enough P s.w) :
+    SysInv P dc ds (mkSys u (receiveT C (blockWorld C P u dc ds) (engine P) s n T).2.g
+      (receiveT C (blockWorld C P u dc ds) (engine P) s n T).2.e (receiveT C (blockWorld C P u dc ds) (engine P) s n T).2.w) ∧
+    3 ≤ (receiveT C (blockWorld C P u dc ds) (engine P) s n T).2.e.stage ∧
+    ((receiveT C (blockWorld C P u dc ds) (engine P) s n T).2.w.prog = [] ∨
+     (∃ out, (receiveT C (blockWorld C P u dc ds) (engine P) s n T).1 = .ok out ∧ out ≠ [] ∧
+        ReadyU (ownPay u dc ds) (receiveT C (blockWorld C P u dc ds) (engine P) s n T).2)) :=
+  C18Hs.unlimited_receive_completes_handshake C hC P u dc ds hdc hds T hT n hn s hr hinv hok hen
+
+theorem handshake_completes_one_side_unlimited (C : Cfg) (hC : 1 < C.stepsMax) (P : HsP) (u : Bool) (dc ds : Bytes)
+    (hdc : dc ≠ []) (hds : ds ≠ []) (T : Int) (hT : T < 0) (segs : List Nat) (prog : List Kind)
+    (hprog : ∀ k ∈ prog, k.ok) (pre post : List ActU) (kb : Kind) (hpre : ∀ a ∈ pre, a = .poll) (hkb : kb.ok)
+    (hpost : ∀ a ∈ post, a.okU) (hlen : pre.length + P.half ≤ prog.length) :
+    SysInv P dc ds (mkSys u (SysU.run C P u dc ds T (pre ++ .block kb :: post) (SysU.init P u segs prog)).g
+      (SysU.run C P u dc ds T (pre ++ .block kb :: post) (SysU.init P u segs prog)).e
+      (SysU.run C P u dc ds T (pre ++ .block kb :: post) (SysU.init P u segs prog)).w) ∧
+    3 ≤ (SysU.run C P u dc ds T (pre ++ .block kb :: post) (SysU.init P u segs prog)).e.stage ∧
+    ((SysU.run C P u dc ds T (pre ++ .block kb :: post) (SysU.init P u segs prog)).w.prog ≠ [] →
+      (SysU.run C P u dc ds T (pre ++ .block kb :: post) (SysU.init P u segs prog)).faults = 0 ∧
+      (P.half ≤ polls post →
+        3 ≤ (SysU.run C P u dc ds T (pre ++ .block kb :: post) (SysU.init P u segs prog)).w.e.stage)) :=
+  C18Hs.handshake_completes_one_side_unlimited C hC P u dc ds hdc hds T hT segs prog hprog pre post kb hpre hkb hpost hlen
+
+theorem blocking_side_must_call (C : Cfg) (hC : 1 < C.stepsMax) (P : HsP) (u : Bool) (dc ds : Bytes)
+    (hdc : dc ≠ []) (hds : ds ≠ []) (T : Int) (hT : T < 0) (segs : List Nat) (prog : List Kind)
+    (hprog : ∀ k ∈ prog, k.ok) (pre : List ActU) (hpre : ∀ a ∈ pre, a = .poll) :
+    (SysU.run C P u dc ds T pre (SysU.init P u segs prog)).e = Hs.init P u ∧
+    ¬ 3 ≤ (SysU.run C P u dc ds T pre (SysU.init P u segs prog)).e.stage :=
+  C18Hs.blocking_side_must_call C hC P u dc ds hdc hds T hT segs prog hprog pre hpre
+
+theorem peer_never_faults (P : HsP) (u : Bool) (dc ds : Bytes) (g : Glue) (h : Hs) (w : PeerW)
+    (hinv : SysInv P dc ds (mkSys u g h w)) : w.faults = 0 :=
+  C18Hs.peer_never_faults P u dc ds g h w hinv
+
+/-! ### an asynchronous (driver-operated) server and a polling synchronous client -/
+
+theorem deemed_flags_are_harmless {σ : Type} (C : Cfg) (r : Bool) (E : Engine σ) (s : St σ Chan) (hfl : Fl r s) :
+    (∀ n, tlsRead C (chanWorld r) E (nf s) n = ((tlsRead C (chanWorld r) E s n).1, nf (tlsRead C (chanWorld r) E s n).2)) ∧
+    (∀ d, tlsWrite C (chanWorld r) E (nf s) d = ((tlsWrite C (chanWorld r) E s d).1, nf (tlsWrite C (chanWorld r) E s d).2)) :=
+  C18Hs.deemed_flags_are_harmless C r E s hfl
+
+theorem readable_task_progress (C : Cfg) (hC : 0 < C.stepsMax) (P : HsP) (r : Bool) (data : Bytes) (rx : Nat)
+    (hrx : 1 ≤ rx) (s : St Hs Chan) (hi : SideInv P r data (nf s)) (hin : 0 < s.w.inb r) :
+    ∃ bs s', receiveReadable C (chanWorld r) (engine P) s rx = (.ok bs, s') ∧ SideInv P r data (nf s') ∧
+      Tr P r s.e s.w s'.e s'.w ∧ (CanProg r s.e s.w → work P s'.e < work P s.e) ∧ Tight (nf s') ∧
+      (3 ≤ s'.e.stage → s'.g.lastError = .none) :=
+  C18Hs.readable_task_progress C hC P r data rx hrx s hi hin
+
+theorem handshake_completes_async_server (C : Cfg) (hC : 1 < C.stepsMax) (P : HsP) (dc ds : Bytes) (hdc : dc ≠ [])
+    (rx : Nat) (hrx : 1 ≤ rx) (segs : List Nat) (w : Nat) (l : List ActA) (hok : ∀ a ∈ l, a.okA)
+    (hf : C18Hs.AFair w l) (j : Nat) (hj : j ≤ l.length) :
+    (SysAS.run C P dc rx (l.take j) (SysAS.init P segs)).faults = 0 ∧
+    (SysAS.run C P dc rx (l.take j) (SysAS.init P segs)).x.a.pollOut = false ∧
+    (P.total * w ≤ j → (SysAS.run C P dc rx (l.take j) (SysAS.init P segs)).bothFinished) :=
+  C18Hs.handshake_completes_async_server C hC P dc ds hdc rx hrx segs w l hok hf j hj
+
+theorem undriven_server_never_completes (C : Cfg) (P : HsP) (dc : Bytes) (rx : Nat) (segs : List Nat) (l : List ActA)
+    (hl : ∀ a ∈ l, a ≠ ActA.drive) :
+    (SysAS.run C P dc rx l (SysAS.init P segs)).x.s.e = Hs.init P false ∧
+    ¬ (SysAS.run C P dc rx l (SysAS.init P segs)).bothFinished :=
+  C18Hs.undriven_server_never_completes C P dc rx segs l hl
+
+/-! ### an asynchronous endpoint of either role with a send queue (readable AND writable tasks, `POLLOUT` protocol) -/
+
+theorem readable_task_clears_flag (C : Cfg) (hC : 0 < C.stepsMax) (P : HsP) (r : Bool) (rx : Nat) (s : St Hs Chan)
+    (hw : WF P s.e) (hle : s.g.lastError = .none ∨ s.g.lastError = .wantRead) :
+    (receiveReadable C (chanWorld r) (engine P) s rx).2.g.isReadable = false :=
+  C18Hs.readable_task_clears_flag C hC P r rx s hw hle
+
+theorem writable_task_progress (C : Cfg) (hC : 1 < C.stepsMax) (P : HsP) (r : Bool) (buf : Bytes) (hb : buf ≠ [])
+    (s : St Hs Chan) (hi : SideInv P r buf (nf s)) (hir : s.g.isReadable = false) :
+    ∃ k s', sendSomeWritable C (chanWorld r) (engine P) s buf = (.ok k, s') ∧ SideInv P r buf (nf s') ∧
+      Tr P r s.e s.w s'.e s'.w ∧ (CanProg r s.e s.w → work P s'.e < work P s.e) ∧ Tight (nf s') ∧
+      s'.g.isReadable = false ∧
+      ((k = buf.length ∧ 3 ≤ s'.e.stage ∧ s'.g.lastError = .none ∧ s'.g.pendingSend = []) ∨ k = 0) :=
+  C18Hs.writable_task_progress C hC P r buf hb s hi hir
+
+theorem handshake_completes_async_endpoint (C : Cfg) (hC : 1 < C.stepsMax) (P : HsP) (u : Bool) (dc ds : Bytes)
+    (hdc : dc ≠ []) (hds : ds ≠ []) (rx : Nat) (hrx : 1 ≤ rx) (segs : List Nat) (q : List Bytes)
+    (hq : ∀ b ∈ q, b ≠ []) (hfed : u = true → q ≠ []) (w : Nat) (l : List ActG) (hok : ∀ a ∈ l, a.okG)
+    (hf : C18Hs.GFair w l) (j : Nat) (hj : j ≤ l.length) :
+    (SysAG.run C P u dc ds rx (l.take j) (SysAG.init P u segs q)).faults = 0 ∧
+    ((SysAG.run C P u dc ds rx (l.take j) (SysAG.init P u segs q)).x.a.sendQ ≠ [] ↔
+      ((SysAG.run C P u dc ds rx (l.take j) (SysAG.init P u segs q)).x.a.pollOut = true ∨
+       (SysAG.run C P u dc ds rx (l.take j) (SysAG.init P u segs q)).x.s.g.driverSendSuppressed = true)) ∧
+    (P.total * w ≤ j → (SysAG.run C P u dc ds rx (l.take j) (SysAG.init P u segs q)).bothFinished) :=
+  C18Hs.handshake_completes_async_endpoint C hC P u dc ds hdc hds rx hrx segs q hq hfed w l hok hf j hj
+
+end SockModel.Hs
